@@ -2,6 +2,28 @@ module verifharness
 
 go 1.23.0
 
-require github.com/openfga/language/pkg/go v0.0.0
+require (
+	github.com/antlr4-go/antlr/v4 v4.13.1
+	github.com/hashicorp/go-multierror v1.1.1
+	github.com/openfga/api/proto v0.0.0-20250127102726-f9709139a369
+	github.com/openfga/language/pkg/go v0.0.0
+	gonum.org/v1/gonum v0.16.0
+	google.golang.org/protobuf v1.36.6
+	gopkg.in/yaml.v3 v3.0.1
+)
+
+require (
+	github.com/envoyproxy/protoc-gen-validate v1.2.1 // indirect
+	github.com/grpc-ecosystem/grpc-gateway/v2 v2.26.3 // indirect
+	github.com/hashicorp/errwrap v1.1.0 // indirect
+	github.com/oklog/ulid/v2 v2.1.0 // indirect
+	golang.org/x/exp v0.0.0-20250305212735-054e65f0b394 // indirect
+	golang.org/x/net v0.37.0 // indirect
+	golang.org/x/sys v0.31.0 // indirect
+	golang.org/x/text v0.23.0 // indirect
+	google.golang.org/genproto/googleapis/api v0.0.0-20250311190419-81fb87f6b8bf // indirect
+	google.golang.org/genproto/googleapis/rpc v0.0.0-20250311190419-81fb87f6b8bf // indirect
+	google.golang.org/grpc v1.71.0 // indirect
+)
 
 replace github.com/openfga/language/pkg/go => /repo/pkg/go
